@@ -5,9 +5,12 @@
    `a_run V veq ops` are the two abstract maps (D, P) of Spec.v after the same operations.
    Iteration order and callback answers are part of the operations (IterUpd/IterDel carry the visit
    sequence), so they are universally quantified with `ops`.
-   `op_ok false o` asks only that a Replace's iterator produces no key twice (see the refuted theorem). *)
+   `ops_ok V veq fixed st0 ops` asks only (a) for fixed=false that a Replace's iterator produces no key
+   twice (see the refuted theorem) and (b) for IterBatched operations that the recorded applyFn calls are
+   the calls the code makes on that state (same items applied).  IterBatchUpd/IterBatchDel are the two
+   IterBatched variants (batch callbacks, error answers, partial batches); DesSetMany is a bulk Desired().Set. *)
 From Coq Require Import List NArith ZArith Bool.
-From Verif.C18 Require Import Model Spec Proofs.
+From Verif.C18 Require Import Model Spec Proofs Cache.
 Import ListNotations.
 Open Scope N_scope.
 
@@ -16,7 +19,7 @@ Open Scope N_scope.
 Theorem c18_views_exact : forall (V : Type) (veq : V -> V -> bool),
   (forall a, veq a a = true) -> (forall a b, veq a b = veq b a) ->
   (forall a b c, veq a b = true -> veq b c = true -> veq a c = true) ->
-  forall (fixed : bool) (ops : list (op V)), Forall (op_ok V fixed) ops ->
+  forall (fixed : bool) (ops : list (op V)), ops_ok V veq fixed (st0 V) ops ->
   let s := run V veq fixed ops in
   views_exact V veq (views_of V s) (fst (a_run V veq ops)) (snd (a_run V veq ops)).
 Proof. exact views_exact_run. Qed.
@@ -25,7 +28,7 @@ Print Assumptions c18_views_exact.
 (* With valuesEqual = identity (the cachingmap case, ==) the equalities are literal. *)
 Theorem c18_views_identical : forall (V : Type) (veq : V -> V -> bool),
   (forall a b, veq a b = true <-> a = b) ->
-  forall (fixed : bool) (ops : list (op V)), Forall (op_ok V fixed) ops ->
+  forall (fixed : bool) (ops : list (op V)), ops_ok V veq fixed (st0 V) ops ->
   let s := run V veq fixed ops in
   (forall k, des_get V s k = get (fst (a_run V veq ops)) k) /\
   (forall k, dp_get V s k = get (snd (a_run V veq ops)) k) /\
@@ -39,7 +42,7 @@ Print Assumptions c18_views_identical.
 Theorem c18_lens_exact : forall (V : Type) (veq : V -> V -> bool),
   (forall a, veq a a = true) -> (forall a b, veq a b = veq b a) ->
   (forall a b c, veq a b = true -> veq b c = true -> veq a c = true) ->
-  forall (fixed : bool) (ops : list (op V)), Forall (op_ok V fixed) ops ->
+  forall (fixed : bool) (ops : list (op V)), ops_ok V veq fixed (st0 V) ops ->
   let s := run V veq fixed ops in
   (des_len V s = Z.of_nat (length (des_iter V s)) /\ NoDup (keys (des_iter V s)) /\ forall k, get (des_iter V s) k = des_get V s k) /\
   (dp_len V s = Z.of_nat (length (dp_iter V s)) /\ NoDup (keys (dp_iter V s)) /\ forall k, get (dp_iter V s) k = dp_get V s k) /\
@@ -54,7 +57,7 @@ Print Assumptions c18_lens_exact.
 Theorem c18_internal_maps_disjoint : forall (V : Type) (veq : V -> V -> bool),
   (forall a, veq a a = true) -> (forall a b, veq a b = veq b a) ->
   (forall a b c, veq a b = true -> veq b c = true -> veq a c = true) ->
-  forall (fixed : bool) (ops : list (op V)), Forall (op_ok V fixed) ops ->
+  forall (fixed : bool) (ops : list (op V)), ops_ok V veq fixed (st0 V) ops ->
   let s := run V veq fixed ops in
   forall k,
     (get (AD s) k <> None -> get (ND s) k = None) /\
@@ -76,11 +79,11 @@ Theorem c18_iter_update_moves : forall (V : Type) (veq : V -> V -> bool),
 Proof. exact iter_update_moves. Qed.
 Print Assumptions c18_iter_update_moves.
 
-(* With the repair, no restriction on the iterators at all. *)
+(* With the repair, no restriction on the iterators at all (IterBatched is covered by c18_views_exact). *)
 Theorem c18_views_exact_repaired : forall (V : Type) (veq : V -> V -> bool),
   (forall a, veq a a = true) -> (forall a b, veq a b = veq b a) ->
   (forall a b c, veq a b = true -> veq b c = true -> veq a c = true) ->
-  forall ops : list (op V),
+  forall ops : list (op V), Forall (op_plain V) ops ->
   views_exact V veq (views_of V (run V veq true ops)) (fst (a_run V veq ops)) (snd (a_run V veq ops)).
 Proof. exact views_exact_repaired. Qed.
 Print Assumptions c18_views_exact_repaired.
@@ -92,3 +95,66 @@ Theorem c18_replace_duplicate_key_refuted :
     ~ views_exact N N.eqb (views_of N (run N N.eqb false ops)) (fst (a_run N N.eqb ops)) (snd (a_run N N.eqb ops)).
 Proof. exact replace_duplicate_key_refuted. Qed.
 Print Assumptions c18_replace_duplicate_key_refuted.
+
+(* ---------- felix/cachingmap CachingMap (cst: tracker + real dataplane map + cacheLoaded) ----------
+   CI c: the tracker invariant, and, once loaded, the tracker's Dataplane view IS the real map.
+   crun: any sequence of Desired() changes, LoadCacheFromDataplane, ApplyUpdatesOnly / ApplyDeletionsOnly /
+   ApplyAllChanges with arbitrary injected failures (Load, Update, Delete) and iteration orders. *)
+Theorem c18_cache_invariant : forall (V : Type) (veq : V -> V -> bool),
+  (forall a, veq a a = true) -> (forall a b, veq a b = veq b a) ->
+  (forall a b c, veq a b = true -> veq b c = true -> veq a c = true) ->
+  forall (fixed : bool) (ops : list (cop V)), Forall (cop_ok V) ops -> CI V veq (crun V veq fixed ops).
+Proof. exact crun_ci. Qed.
+Print Assumptions c18_cache_invariant.
+
+(* After an ApplyAllChanges that returned nil (and whose loops visited every pending key, as the code does):
+   the real dataplane map equals the desired map, nothing is pending, the desired map is unchanged. *)
+Theorem c18_cache_apply_all_converges : forall (V : Type) (veq : V -> V -> bool),
+  (forall a, veq a a = true) -> (forall a b, veq a b = veq b a) ->
+  (forall a b c, veq a b = true -> veq b c = true -> veq a c = true) ->
+  forall (fixed lf : bool) (trd : list (N * bool)) (tru : list (N * V * bool)) (c : cst V),
+  (forall a b, veq a b = true -> a = b) -> CI V veq c ->
+  let c1 := fst (c_maybe_load V veq fixed lf c) in
+  (forall k, get (ND (c_t c1)) k <> None -> In k (map fst trd)) ->
+  (forall k, get (DU (c_t c1)) k <> None -> In k (map (fun x => fst (fst x)) tru)) ->
+  let r := c_all V veq fixed lf trd tru c in
+  snd r = 0%Z ->
+  CI V veq (fst r) /\ c_loaded (fst r) = true /\
+  (forall k, get (c_dp (fst r)) k = des_get V (c_t (fst r)) k) /\
+  (forall k, pu_get V (c_t (fst r)) k = None) /\ (forall k, pd_get V (c_t (fst r)) k = None) /\
+  (forall k, des_get V (c_t (fst r)) k = des_get V (c_t c) k).
+Proof. exact apply_all_converges. Qed.
+Print Assumptions c18_cache_apply_all_converges.
+
+(* After an ApplyAllChanges in which anything failed: the invariant still holds and the tracker reports the
+   exact difference between the desired map and the REAL dataplane map. *)
+Theorem c18_cache_exact_after_failures : forall (V : Type) (veq : V -> V -> bool),
+  (forall a, veq a a = true) -> (forall a b, veq a b = veq b a) ->
+  (forall a b c, veq a b = true -> veq b c = true -> veq a c = true) ->
+  forall (fixed lf : bool) (trd : list (N * bool)) (tru : list (N * V * bool)) (c : cst V), CI V veq c ->
+  let c' := fst (c_all V veq fixed lf trd tru c) in
+  CI V veq c' /\
+  (c_loaded c' = true -> forall k,
+     pu_get V (c_t c') k = pending_update V veq (des_get V (c_t c')) (get (c_dp c')) k /\
+     pd_get V (c_t c') k = pending_del V (des_get V (c_t c')) (get (c_dp c')) k).
+Proof. exact apply_exact_after_failures. Qed.
+Print Assumptions c18_cache_exact_after_failures.
+
+(* A failed write leaves its key pending. *)
+Theorem c18_cache_failed_update_stays_pending : forall (V : Type) (veq : V -> V -> bool),
+  (forall a, veq a a = true) -> (forall a b, veq a b = veq b a) ->
+  (forall a b c, veq a b = true -> veq b c = true -> veq a c = true) ->
+  forall (fixed lf : bool) (tr : list (N * V * bool)) (c : cst V) (k : N), CI V veq c -> c_loaded c = true ->
+  (forall x, In x tr -> fst (fst x) = k -> snd x = false) ->
+  pu_get V (c_t (fst (c_upd V veq fixed lf tr c))) k = pu_get V (c_t c) k.
+Proof. exact failed_update_stays_pending. Qed.
+Print Assumptions c18_cache_failed_update_stays_pending.
+
+Theorem c18_cache_failed_delete_stays_pending : forall (V : Type) (veq : V -> V -> bool),
+  (forall a, veq a a = true) -> (forall a b, veq a b = veq b a) ->
+  (forall a b c, veq a b = true -> veq b c = true -> veq a c = true) ->
+  forall (fixed lf : bool) (tr : list (N * bool)) (c : cst V) (k : N), CI V veq c -> c_loaded c = true ->
+  (forall x, In x tr -> fst x = k -> snd x = false) ->
+  pd_get V (c_t (fst (c_del V veq fixed lf tr c))) k = pd_get V (c_t c) k.
+Proof. exact failed_delete_stays_pending. Qed.
+Print Assumptions c18_cache_failed_delete_stays_pending.
